@@ -138,7 +138,7 @@ def gen_case(rng, tier):
     ordered = [d for d in s.docs]
     # exactly one unsafe element per case (an unsafe node that is refused aborts the build and would mask everything after it);
     # everything else is safe and must keep working
-    focus = rng.choice(['dyn', 'dyn', 'taint', 'taint', 'deep', 'deep', 'rename', 'alias', 'rec', 'override', 'late_marker'])
+    focus = rng.choice(['dyn', 'dyn', 'taint', 'taint', 'deep', 'deep', 'rename', 'alias', 'rec', 'override', 'late_marker', 'tagged_fstr'])
     # --- dynamic nodes with merge histories
     keys = []
     n_dyn = rng.choice([1, 1, 2, 3])
@@ -398,6 +398,11 @@ def gen_case(rng, tier):
         lvl = rng.choice(["a: !metadata{{'safe': True}}\n    b: " + dyn, "a: !metadata{{'safe': True}}\n    m:\n      b: " + dyn,
                           "m:\n    a: !metadata{{'safe': True, 'note': 1}}\n      - 0\n      - " + dyn])
         sources.append({'text': f'ov{i}: !unsafe\n  {lvl}\n', 'safe': True})
+    if focus == 'tagged_fstr':
+        # a merge-control tag written directly on a scalar that is itself resolved to a node (an implicit f-string)
+        i = s.uid()
+        tag = rng.choice(['!unsafe', "!metadata{{'safe': False}}", "!metadata{{'safe': False, 'note': 1}}"])
+        sources.append({'text': f"fs{i}: {tag} f'v{{T.u{i}({i}).name}}'\n", 'safe': True})
     if focus == 'late_marker':
         # a later stage marks the container !unsafe: what the container already held is below an !unsafe node from then on
         i = s.uid()
